@@ -382,32 +382,33 @@ theorem patch_date_roundtrip (secs off : Int) (h : dateOK secs off = true) :
 
 /-- **Round trip of all fields (line list).**  For every stanza line codec satisfying the
 round-trip law (bzrformats' rio_patch; assumed, checked per case) and every directive with a
-testament sha1, a merge source (public branch or bundle) and a date in the timestamp's
-domain, whose patch has no line starting with the bundle marker: `to_lines` succeeds and
-`from_lines` gives back revision id, testament sha1, time, timezone, target and source
-branch, message, base revision id, patch and bundle. -/
-theorem directive_fields_roundtrip (rio : Codec Stanza) (hc : CodecLaw rio) (d : Directive Fields)
-    (hf : fieldsOK d = true) (hd : patchOk splitLines d.patch = true) :
-    ∃ lines, toLinesF rio d = .ok lines ∧ fromLinesF rio lines = .ok d := by
-  simp only [fieldsOK, Bool.decide_and, Bool.decide_or, Bool.and_eq_true, Bool.or_eq_true, decide_eq_true_eq] at hf
+testament sha1 (not needed for the tolerant variant of `_from_lines`), a merge source (public
+branch or bundle) and a date in the timestamp's domain, whose patch has no line starting with
+the bundle marker: `to_lines` succeeds and `from_lines` gives back revision id, testament
+sha1, time, timezone, target and source branch, message, base revision id, patch and bundle. -/
+theorem directive_fields_roundtrip (tolerant : Bool) (rio : Codec Stanza) (hc : CodecLaw rio) (d : Directive Fields)
+    (hf : fieldsOKV tolerant d = true) (hd : patchOk splitLines d.patch = true) :
+    ∃ lines, toLinesF rio d = .ok lines ∧ fromLinesFV tolerant rio lines = .ok d := by
+  simp only [fieldsOKV, Bool.decide_and, Bool.decide_or, Bool.and_eq_true, Bool.or_eq_true, decide_eq_true_eq] at hf
   obtain ⟨ht, hsrc, hdate⟩ := hf
-  obtain ⟨st, hst, hback⟩ := fields_roundtrip d.fields d.bundle.isSome ht hsrc hdate
+  obtain ⟨st, hst, hback⟩ := fields_roundtrip tolerant d.fields d.bundle.isSome ht hsrc hdate
   refine ⟨toLines rio ⟨st, d.patch, d.bundle⟩, by simp only [toLinesF, hst], ?_⟩
-  unfold fromLinesF
+  unfold fromLinesFV
   rw [directive_roundtrip rio hc ⟨st, d.patch, d.bundle⟩ hd]
   simp only [hback]
 
 /-- **… and through a file**, under the additional conditions of `directive_roundtrip_file` -/
-theorem directive_fields_roundtrip_file (rio : Codec Stanza) (hc : CodecLaw rio) (d : Directive Fields)
-    (hf : fieldsOK d = true) (hl : ∀ st, ∀ l ∈ rio.enc st, isLine l = true)
+theorem directive_fields_roundtrip_file (tolerant : Bool) (rio : Codec Stanza) (hc : CodecLaw rio)
+    (d : Directive Fields)
+    (hf : fieldsOKV tolerant d = true) (hl : ∀ st, ∀ l ∈ rio.enc st, isLine l = true)
     (hd : patchOk splitNL d.patch = true)
     (hp : ∀ x y, d.patch = some x → d.bundle = some y → endsNL x = true) :
-    ∃ lines, toLinesF rio d = .ok lines ∧ fromLinesF rio (splitNL (joinLines lines)) = .ok d := by
-  simp only [fieldsOK, Bool.decide_and, Bool.decide_or, Bool.and_eq_true, Bool.or_eq_true, decide_eq_true_eq] at hf
+    ∃ lines, toLinesF rio d = .ok lines ∧ fromLinesFV tolerant rio (splitNL (joinLines lines)) = .ok d := by
+  simp only [fieldsOKV, Bool.decide_and, Bool.decide_or, Bool.and_eq_true, Bool.or_eq_true, decide_eq_true_eq] at hf
   obtain ⟨ht, hsrc, hdate⟩ := hf
-  obtain ⟨st, hst, hback⟩ := fields_roundtrip d.fields d.bundle.isSome ht hsrc hdate
+  obtain ⟨st, hst, hback⟩ := fields_roundtrip tolerant d.fields d.bundle.isSome ht hsrc hdate
   refine ⟨toLines rio ⟨st, d.patch, d.bundle⟩, by simp only [toLinesF, hst], ?_⟩
-  unfold fromLinesF
+  unfold fromLinesFV
   rw [directive_roundtrip_file rio hc ⟨st, d.patch, d.bundle⟩ (hl st) hd hp]
   simp only [hback]
 
@@ -430,6 +431,8 @@ theorem directive_no_testament_witness :
 /-- the offset's sign belongs to hours and minutes (fix b80d98c) -/
 example : parsePatchDate "2019-01-01 00:00:00 -0330".toList = .ok (1546313400, -12600) := by decide +kernel
 example : dateOK 1500000000 (-12600) = true ∧ dateOK 0 0 = true ∧ dateOK 0 3600 = false := by decide +kernel
+example : fieldsOKV false ⟨⟨['r'], some ['s'], 86400, 3600, ['t'], none, none, ['b']⟩, none, some [81, 10]⟩ = true ∧
+    fieldsOKV true ⟨⟨['r'], none, 86400, 0, ['t'], some ['u'], none, ['b']⟩, none, none⟩ = true := by decide +kernel
 
 /-! ## patch verification -/
 
